@@ -203,12 +203,16 @@ end
 /-- the code as it stands: `ValueSerializer::serialize_struct(_name, len)` is `serialize_map` -/
 def currentHonourName : Bool := true
 
+/-- binary64 NaN test and `copysign(1.0)` on a NaN (the same definition as `Spec.Serde.clearNanSign`) -/
+def clearNanSign64 (b : Nat) : Nat :=
+  if (b / 2 ^ 52) % 2048 == 2047 && b % 2 ^ 52 != 0 then b % 2 ^ 63 else b
+
 mutual
 /-- `toml::value::ValueSerializer` (what `Value::try_from` runs) -/
 def valueSerializer (fl : Flavour) (honourName : Bool) : Ser → Option TV
   | .bool b => some (.bool b)
   | .i64 n => some (.int n)
-  | .f64 b => some (.float b)
+  | .f64 b => some (.float (clearNanSign64 b))   -- `serialize_f64`: `copysign(1.0)` on a NaN
   | .str s => some (.str s)
   | .seq l => (valueSerializerList fl honourName l).map .arr
   | .map entries => (valueSerializerPairs fl honourName entries).map fun ps => .tbl (insertAllReplace fl [] ps)
